@@ -7,3 +7,4 @@ Definition k_flow_pack_asn1_octet_string : pfun :=
     ] [];
     SReturn (PCall "_pack_asn1" [(PAttr (PName "tag") "tag_class"); (PAttr (PName "tag") "is_constructed"); (PAttr (PName "tag") "tag_number"); (PName "b_data")])
   ] |}.
+Definition k_flow_pack_asn1_octet_string_defaults : list (string * pexp) := [("tag", PNone)].
